@@ -151,6 +151,8 @@ example :
     wf (compl (joined [ranged 0 2 true false, ranged 4 6 false false, ranged 8 10 false true])) = true ∧
     reverseMarkAbs (compl (joined [ranged 0 2 true false, ranged 4 6 false false, ranged 8 10 false true])) 12 = false ∧
     outerMarks (compl (joined [ranged 0 2 true false, ranged 4 6 false false, ranged 8 10 false true])) = (true, true) ∧
+    reverseAbs (compl (joined [ranged 0 2 true false, ranged 4 6 false false, ranged 8 10 false true])) 12 = false ∧
+    (den (compl (joined [ranged 0 2 true false, ranged 4 6 false false, ranged 8 10 false true]))).Nodup ∧
     wf (joined [ranged 1 3 true false, between 4, point 6]) = true ∧
     reverseMarkAbs (joined [ranged 1 3 true false, between 4, point 6]) 9 = false ∧
     outerMarks (joined [ranged 1 3 true false, between 4, point 6]) = (true, false) ∧
